@@ -32,7 +32,7 @@ pub fn run(tier: Tier) -> i32 {
         run_queries("C02", &spec, &bytes, &model, &qs, acc);
         // the same battery over a source serving short and interrupted reads (big files and a
         // 1-in-16 sample of the others)
-        if big || i % 16 == 0 {
+        if big || i % 64 == 0 {
             acc.count("files_also_queried_over_a_short_reading_source", 1);
             // ... of the file as received by a sink accepting short and interrupted writes
             match crate::common::write_file_short(&spec.cfg, &model.entries) {
